@@ -334,9 +334,13 @@ func RandRead(p []byte) (int, error) {
 		return len(p), nil
 	}
 	for i := range p {
+		// splitmix64 of a counter: deterministic per execution, well mixed in every bit
 		x.rngCtr++
-		v := x.rngCtr * 0x9E3779B97F4A7C15
-		p[i] = byte(v >> 56)
+		z := x.rngCtr * 0x9E3779B97F4A7C15
+		z = (z ^ (z >> 30)) * 0xBF58476D1CE4E5B9
+		z = (z ^ (z >> 27)) * 0x94D049BB133111EB
+		z ^= z >> 31
+		p[i] = byte(z >> 24)
 	}
 	return len(p), nil
 }
